@@ -125,7 +125,14 @@ impl<'a> Gen<'a> {
         self.tree
             .fixtures
             .iter()
-            .filter(|f| f.dir == dir && !f.is_schema)
+            .filter(|f| f.dir == dir && !f.is_schema && !f.deepbad)
+            .collect()
+    }
+    fn deepbad_of(&self, dir: &str) -> Vec<&crate::tree::Fixture> {
+        self.tree
+            .fixtures
+            .iter()
+            .filter(|f| f.dir == dir && f.deepbad)
             .collect()
     }
     fn schemas_of(&self, dir: &str) -> Vec<&crate::tree::Fixture> {
@@ -196,7 +203,12 @@ impl<'a> Gen<'a> {
             let d = *rng.pick(&dirs);
             let qs = self.queries_of(d);
             let ss = self.schemas_of(d);
-            let q = *rng.pick(&qs);
+            let mut q = *rng.pick(&qs);
+            let dbs = self.deepbad_of(d);
+            if !dbs.is_empty() && rng.chance(1, 10) {
+                q = *rng.pick(&dbs);
+                labels.push("deep-validation-failure".into());
+            }
             let s = *rng.pick(&ss);
             let mut qp = self.tree.spell(&q.dir, &q.file, *rng.pick(&spellings));
             let mut sp = self.tree.spell(&s.dir, &s.file, *rng.pick(&spellings));
@@ -216,16 +228,26 @@ impl<'a> Gen<'a> {
                 let mut r = Rng::new(ps ^ simcore::fnv64(q.file.as_bytes(), 7));
                 option_set(&mut r, &q.ops, &qp)
             };
-            let entry = if rng.chance(1, 6) { "string" } else { "file" };
+            let entry = if rng.chance(1, 5) { "string" } else { "file" };
+            // for the text entry point: the file's text as it is, trimmed, or padded
+            let text_form = *rng.pick(&["as-is", "as-is", "trimmed", "padded"]);
             if rng.chance(1, 12) {
                 // a query against a schema of another directory: fails validation outside the locks
                 let od = *rng.pick(&usable);
                 let oss = self.schemas_of(od);
                 let os = *rng.pick(&oss);
                 labels.push("cross-dir-schema".into());
-                return json!({"entry": entry, "query": qp, "schema": self.tree.spell(&os.dir, &os.file, 0), "opts": opts});
+                let mut c = json!({"entry": entry, "query": qp, "schema": self.tree.spell(&os.dir, &os.file, 0), "opts": opts});
+                if entry == "string" && text_form != "as-is" {
+                    c["text_form"] = json!(text_form);
+                }
+                return c;
             }
-            json!({"entry": entry, "query": qp, "schema": sp, "opts": opts})
+            let mut c = json!({"entry": entry, "query": qp, "schema": sp, "opts": opts});
+            if entry == "string" && text_form != "as-is" {
+                c["text_form"] = json!(text_form);
+            }
+            c
         };
         let failing_call = |rng: &mut Rng, labels: &mut Vec<String>, base: &Value| -> Value {
             let (rel, kind) = (*rng.pick(&enabled_bad)).clone();
@@ -261,8 +283,21 @@ impl<'a> Gen<'a> {
                 let d = *rng.pick(&usable);
                 let qs = self.queries_of(d);
                 let ss = self.schemas_of(d);
-                let (q, s) = (*rng.pick(&qs), *rng.pick(&ss));
+                let (mut q, s) = (*rng.pick(&qs), *rng.pick(&ss));
+                let dbs = self.deepbad_of(d);
+                if !dbs.is_empty() && rng.chance(1, 5) {
+                    q = *rng.pick(&dbs);
+                }
                 let mut c = json!({"entry": "file", "query": self.tree.spell(&q.dir, &q.file, rng.below(SPELLINGS)), "schema": self.tree.spell(&s.dir, &s.file, rng.below(SPELLINGS)), "opts": {}});
+                if rng.chance(1, 6) {
+                    // a query against another directory's schema: fails validation (an Err, outside
+                    // the locks) - many of these on one thread accumulate whatever a failing
+                    // validation leaves behind
+                    let od = *rng.pick(&usable);
+                    let oss = self.schemas_of(od);
+                    let os = *rng.pick(&oss);
+                    c["schema"] = json!(self.tree.spell(&os.dir, &os.file, 0));
+                }
                 if rng.chance(1, 25) {
                     let (rel, kind) = rng.pick(&self.tree.bad).clone();
                     let role = if rng.chance(1, 2) { "query" } else { "schema" };
